@@ -593,7 +593,7 @@ def step (s : State) : Op → State × Out
   | .tryUnique src =>
     match lookup s src with
     | some h =>
-      if h.kind = .arc ∧ (h.ty = .sized ∨ h.ty = .slice ∨ h.ty = .hs ∨ h.ty = .mu ∨ h.ty = .muSlice) then
+      if h.kind = .arc ∧ (h.ty = .sized ∨ h.ty = .slice ∨ h.ty = .hs ∨ h.ty = .hwl ∨ h.ty = .mu ∨ h.ty = .muSlice) then
         match Arc.try_unique s.mem h with
         | .ok u => (s.set s.mem src u, ok "ok")
         | .error _ => (s, ok "err")
